@@ -145,7 +145,7 @@ class AesRules:
                     if gid != want:
                         v = compare_terms(ts, gid, want) if gid is not None else 'missing'
                         bad.append((r, i, j, v if v in ('undecided', 'missing') else 'differs at %s' % (v[1],)))
-        und = [b for b in bad if b[3] in ('undecided',)]
+        und = [b for b in bad if b[3] in ('undecided', 'missing')]
         ok = not bad
         rec.ob('R09.k', 'R09.k@%s::key-schedule' % fkey(f), (None if bad and len(und) == len(bad) else ok), where,
                'round keys 0..10 as terms over 16 free key bytes equal FIPS-197 KeyExpansion (176 bytes, state cell (row i, col j) of round r = w[4r+j] byte i): %s' % (
@@ -192,7 +192,7 @@ class AesRules:
                     v = compare_terms(ts, gid, want[i]) if gid is not None else 'missing'
                     pth = ' on the path %s' % [str(x) for x in s.trace[-2:]] if len(res) > 1 else ''
                     bad.append((i, (v if v in ('undecided', 'missing') else 'differs, e.g. for %s: code %02x, FIPS-197 %02x' % (v[1], v[2] & 0xff, v[3] & 0xff)) + pth))
-        und = [b for b in bad if b[1].startswith('undecided')]
+        und = [b for b in bad if b[1].startswith(('undecided', 'missing'))]
         ok = not bad
         rec.ob('R09.' + ('e' if which == 'enc' else 'd'), key, (None if bad and len(und) == len(bad) else ok), where,
                '%s: 16 output bytes as terms over 16 free block bytes and 176 free round-key bytes equal FIPS-197 %s%s: %s' % (
